@@ -5,31 +5,31 @@ import NmfuModel.Equiv
 import Std.Data.HashMap
 namespace Nmfu
 
-variable {A Q : Type} [DecidableEq A] [DecidableEq Q] [Hashable A] [Hashable Q]
+variable {S T A Q : Type} [DecidableEq A] [DecidableEq Q] [Hashable A] [Hashable Q] [DecidableEq S] [DecidableEq T] [Hashable S] [Hashable T]
 
-structure ExploreResult (A Q : Type) where
-  visited : Array (PS A Q)
+structure ExploreResult (S T A Q : Type) where
+  visited : Array (PS S T A Q)
   /-- `some (word, state, symbol)` when a mismatch was found -/
-  mismatch : Option (List Nat × PS A Q × Nat)
+  mismatch : Option (List Nat × PS S T A Q × Nat)
   outOfFuel : Bool
   maxLag : Nat
 
 /-- Breadth-first exploration of the product from the initial state. -/
-def explore (M N : SM A Q) (nsym : Nat) (limit : Nat) : ExploreResult A Q := Id.run do
+def exploreWith (stepFn : PS S T A Q → Nat → Option (List (PS S T A Q))) (M : SM S A Q) (N : SM T A Q) (nsym : Nat) (limit : Nat) : ExploreResult S T A Q := Id.run do
   let init := initPS M N
-  let mut seen : Std.HashMap (PS A Q) Nat := {}
-  let mut nodes : Array (PS A Q) := #[init]
+  let mut seen : Std.HashMap (PS S T A Q) Nat := {}
+  let mut nodes : Array (PS S T A Q) := #[init]
   let mut parent : Array (Nat × Nat) := #[(0, 0)]
   seen := seen.insert init 0
   let mut head := 0
   let mut maxLag := 0
-  let mut result : Option (List Nat × PS A Q × Nat) := none
+  let mut result : Option (List Nat × PS S T A Q × Nat) := none
   let mut fuelOut := false
   while head < nodes.size && result.isNone && !fuelOut do
     let p := nodes[head]!
     for x in [0:nsym] do
       if result.isNone then
-        match stepCheck M N p x with
+        match stepFn p x with
         | none =>
           -- reconstruct the word
           let mut w : List Nat := []
@@ -49,5 +49,8 @@ def explore (M N : SM A Q) (nsym : Nat) (limit : Nat) : ExploreResult A Q := Id.
     head := head + 1
     if nodes.size > limit then fuelOut := true
   return { visited := nodes, mismatch := result, outOfFuel := fuelOut, maxLag := maxLag }
+
+def explore (M : SM S A Q) (N : SM T A Q) (nsym : Nat) (limit : Nat) : ExploreResult S T A Q :=
+  exploreWith (stepCheck M N) M N nsym limit
 
 end Nmfu
